@@ -291,6 +291,91 @@ Definition identify (lca : nat -> nat -> option nat) (indices : nat -> list (nat
       else Some 1
   end.
 
+(** * MatchDistanceIndex (obitag and obitag2; called by the geometric mode only): keys sorted, sort.Search for the
+      first key >= distance, taxid 1 when there is none. [mdi_pick] scans the table for the smallest key >= e. *)
+Fixpoint mdi_pick (idx : list (nat * nat)) (e : nat) (acc : option (nat * nat)) : option (nat * nat) :=
+  match idx with
+  | [] => acc
+  | (k, t) :: r =>
+      if e <=? k
+      then mdi_pick r e (match acc with Some (k0, _) => if k <? k0 then Some (k, t) else acc | None => Some (k, t) end)
+      else mdi_pick r e acc
+  end.
+Definition match_distance_index (idx : list (nat * nat)) (e : nat) : nat :=
+  match mdi_pick idx e None with Some (_, t) => t | None => 1 end.
+Definition max_key (idx : list (nat * nat)) : nat := fold_right (fun p m => Nat.max (fst p) m) 0 idx.
+(** what the harness observes: the answers for the distances 0 .. largest key + 2 *)
+Definition mdi_table (idx : list (nat * nat)) : list nat := map (match_distance_index idx) (seq 0 (max_key idx + 3)).
+
+(** * Database loaders: references whose taxid the taxonomy does not know are discarded by an IN-PLACE compaction of
+      parallel arrays. A reference is any value of type [A]; [cnt] = Count4Mer, [tax x] = taxo.Taxon(x.Taxid())
+      ([None] = error). `for i, seq := range references`: element i is read from the backing array at iteration i,
+      the writes `references[j] = ...` (j <= i) go to the same array. The taxon set is a Go map (int -> *TaxNode):
+      association list, a key bound at most once; [Some None] = key bound to a nil taxon. *)
+Fixpoint upd {A} (j : nat) (x : A) (l : list A) : list A :=
+  match l with
+  | [] => []
+  | y :: r => match j with 0 => x :: r | S j' => y :: upd j' x r end
+  end.
+Definition mset {T} (k : nat) (v : T) (m : list (nat * T)) : list (nat * T) :=
+  (k, v) :: filter (fun p => negb (fst p =? k)) m.
+Fixpoint mget {T} (k : nat) (m : list (nat * T)) : option T :=
+  match m with
+  | [] => None
+  | (k', v) :: r => if k' =? k then Some v else mget k r
+  end.
+Record ldb (A C T : Type) := mkldb { l_refs : list A; l_cnts : list (option C); l_taxa : list (nat * option T); l_j : nat }.
+Arguments mkldb {A C T}. Arguments l_refs {A C T}. Arguments l_cnts {A C T}. Arguments l_taxa {A C T}. Arguments l_j {A C T}.
+(** obitag.CLIAssignTaxonomy, repaired: references[j] = seq; refcounts[j] = Count4Mer(seq); taxon, err := Taxon(..);
+    if err == nil { taxa[j] = taxon; j++ } *)
+Definition tag_step {A C T} (cnt : A -> C) (tax : A -> option T) (d : A) (st : ldb A C T) (i : nat) : ldb A C T :=
+  let x := nth i (l_refs st) d in
+  let refs' := upd (l_j st) x (l_refs st) in
+  let cnts' := upd (l_j st) (Some (cnt x)) (l_cnts st) in
+  match tax x with
+  | Some t => mkldb refs' cnts' (mset (l_j st) (Some t) (l_taxa st)) (S (l_j st))
+  | None => mkldb refs' cnts' (l_taxa st) (l_j st)
+  end.
+(** ... as it was: taxa[j], err = Taxon(..) — the entry is written (nil) on error too *)
+Definition tag_step_orig {A C T} (cnt : A -> C) (tax : A -> option T) (d : A) (st : ldb A C T) (i : nat) : ldb A C T :=
+  let x := nth i (l_refs st) d in
+  let refs' := upd (l_j st) x (l_refs st) in
+  let cnts' := upd (l_j st) (Some (cnt x)) (l_cnts st) in
+  mkldb refs' cnts' (mset (l_j st) (tax x) (l_taxa st)) (match tax x with Some _ => S (l_j st) | None => l_j st end).
+(** obirefidx.IndexReferenceDB: taxon, err := Taxon(..); if err == nil { taxa[j] = taxon; references[j] = references[i]; j++ };
+    the 4-mer tables are computed afterwards from references[0:j] *)
+Definition refidx_step {A C T} (tax : A -> option T) (d : A) (st : ldb A C T) (i : nat) : ldb A C T :=
+  let x := nth i (l_refs st) d in
+  match tax x with
+  | Some t => mkldb (upd (l_j st) x (l_refs st)) (l_cnts st) (mset (l_j st) (Some t) (l_taxa st)) (S (l_j st))
+  | None => st
+  end.
+(** the loop over i = 0 .. n-1, then references = references[:j], refcounts = refcounts[:j] (the map is not cut) *)
+Definition load_db {A C T} (step : ldb A C T -> nat -> ldb A C T) (refs : list A) : list A * list (option C) * list (nat * option T) :=
+  let st := fold_left step (seq 0 (length refs)) (mkldb refs (repeat None (length refs)) [] 0) in
+  (firstn (l_j st) (l_refs st), firstn (l_j st) (l_cnts st), l_taxa st).
+Definition tag_load {A C T} (cnt : A -> C) (tax : A -> option T) (d : A) := load_db (tag_step cnt tax d).
+Definition tag_load_orig {A C T} (cnt : A -> C) (tax : A -> option T) (d : A) := load_db (tag_step_orig cnt tax d).
+Definition refidx_load {A C T} (cnt : A -> C) (tax : A -> option T) (d : A) (refs : list A) :=
+  match load_db (C := C) (refidx_step tax d) refs with
+  | (r, _, t) => (r, map (fun x => Some (cnt x)) r, t)
+  end.
+(** what IndexSequence needs of a loaded database: the keys of the taxon set are exactly 0 .. |references|-1 and none is nil
+    (it ranges over the whole map and calls LCA on every entry: a nil entry is a panic) *)
+Definition taxa_ok {T} (n : nat) (m : list (nat * option T)) : bool :=
+  forallb (fun p => (fst p <? n) && match snd p with Some _ => true | None => false end) m &&
+  forallb (fun k => match mget k m with Some (Some _) => true | _ => false end) (seq 0 n).
+
+(** the worker chunks of IndexReferenceDB / IndexFamilyDB / MakeIndexingSliceWorker:
+    `for i := 0; i < n; i += 10 { limits <- [2]int{i, min(i+10, n)} }` (fuel n is enough: ProofsR3.limits_cover) *)
+Fixpoint chunk_limits (fuel i n : nat) : list (nat * nat) :=
+  match fuel with
+  | 0 => []
+  | S f => if i <? n then (i, Nat.min (i + 10) n) :: chunk_limits f (i + 10) n else []
+  end.
+Definition limits (n : nat) : list (nat * nat) := chunk_limits n 0 n.
+Definition chunk_indices (l : nat * nat) : list nat := seq (fst l) (snd l - fst l).
+
 (** * Correspondence cases *)
 Inductive fobs := FOk (idxs : list nat) (maxe : nat) (bmatch : nat) | FPanic.
 Record ccase := mkc {
@@ -302,7 +387,9 @@ Record ccase := mkc {
   k_rd : list (list nat);           (* distances between references (real kernel) *)
   o_cw : list nat; o_fc : fobs; o_fc2 : fobs;
   o_idx : list (list (nat * nat));  (* observed index tables, by decreasing distance *)
-  o_taxid : nat }.
+  o_taxid : nat;
+  o_mdi : list (list nat); o_mdi2 : list (list nat)   (* MatchDistanceIndex of obitag / obitag2 on each observed index, distances 0 .. *)
+  }.
 
 Fixpoint list_eqb {A} (e : A -> A -> bool) (l1 l2 : list A) : bool :=
   match l1, l2 with
@@ -379,6 +466,8 @@ Definition case_ok (c : ccase) : bool :=
      match (let tabs := map table4 (k_refs c) in all_some (map (model_index thr_fixed c tabs) (seq 0 n))) with
      | Some idxs =>
          list_eqb (list_eqb pair_eqb) idxs (o_idx c) &&
+         list_eqb (list_eqb Nat.eqb) (map mdi_table idxs) (o_mdi c) &&
+         list_eqb (list_eqb Nat.eqb) (map mdi_table idxs) (o_mdi2 c) &&
          match identify (lca_exec (k_parent c)) (fun b => nth b idxs []) st with
          | Some t => t =? o_taxid c
          | None => false
@@ -386,6 +475,42 @@ Definition case_ok (c : ccase) : bool :=
      | None => false
      end
    else true).
+
+(** obitag2 (CLIAssignTaxonomy + Identify), exact match: the taxa of the references with the same bytes as the query, folded with
+    LCA in database order. [xcase]: one query answered by the command obitag2 with method "exact match". *)
+Definition exact_taxon (lca : nat -> nat -> option nat) (q : list N) (refs : list (list N)) (tax : list nat) : option nat :=
+  fold_lca lca (map snd (filter (fun p => list_eqb N.eqb q (fst p)) (combine refs tax))) None.
+Record xcase := mkx { x_q : list N; x_refs : list (list N); x_tax : list nat; x_parent : list (nat * nat); x_obs : nat }.
+Definition xcase_ok (c : xcase) : bool :=
+  match exact_taxon (lca_exec (x_parent c)) (x_q c) (x_refs c) (x_tax c) with
+  | Some t => t =? x_obs c
+  | None => false
+  end.
+Fixpoint xmismatches_from (i : nat) (l : list xcase) : list nat :=
+  match l with
+  | [] => []
+  | c :: l' => let rest := xmismatches_from (S i) l' in if xcase_ok c then rest else i :: rest
+  end.
+Definition exact_mismatches := xmismatches_from 0.
+
+(** the two loaders against the real command. References are numbered 0 .. n-1 in the order of the database file, [lc_known i]: the
+    taxonomy knows the taxid of reference i. Observed: the references present in the output of obirefidx (as a set: the order of the
+    output and the layout of the arrays are not observables of the property). Both model loaders must keep exactly those. *)
+Record lcase := mkl { lc_known : list bool; lc_refidx : list nat }.
+Definition lcase_ok (c : lcase) : bool :=
+  let n := length (lc_known c) in
+  let tax := fun i : nat => if nth i (lc_known c) false then Some i else None in
+  match tag_load (fun x : nat => x) tax 0 (seq 0 n), refidx_load (fun x : nat => x) tax 0 (seq 0 n) with
+  | (r1, _, t1), (r2, _, t2) =>
+      list_eqb Nat.eqb r1 r2 && taxa_ok (length r1) t1 && taxa_ok (length r2) t2 &&
+      list_eqb Nat.eqb (isort r2) (isort (lc_refidx c))
+  end.
+Fixpoint lmismatches_from (i : nat) (l : list lcase) : list nat :=
+  match l with
+  | [] => []
+  | c :: l' => let rest := lmismatches_from (S i) l' in if lcase_ok c then rest else i :: rest
+  end.
+Definition loader_mismatches := lmismatches_from 0.
 
 Fixpoint mismatches_from (i : nat) (l : list ccase) : list nat :=
   match l with
